@@ -32,6 +32,15 @@ BAD_TOKENS = ["A", "Xx", "Ch", "Uue", "J", "Hx"]
 BAD_CHARGES = ["+-", "-+", "+2-", "++", "--", "-3+", "+-2", "-+3", "+-10", "-+"]
 
 
+# caller-declared phase suffixes: (suffix written, table name, table)
+SP_TABLES = [
+    ("(ads)", "{(aq):0,(ads):1}", {"(aq)": 0, "(ads)": 1}),
+    ("(S)", "{(S):1}", {"(S)": 1}),  # CHEMKIN-style surface marker: looks like a group holding an element symbol
+    ("(cr)", "[(cr),(B)]", ["(cr)", "(B)"]),
+    ("(B)", "[(cr),(B)]", ["(cr)", "(B)"]),
+]
+
+
 def bounds(tier):
     return dict(N=5 if tier == "quick" else 6, NC=3 if tier == "quick" else 4, chain_depth=8, tokens="[A-Z][a-z]{0,2}", pairs="118x118 x2 forms")
 
@@ -45,6 +54,7 @@ def chunks(tier):
     out = [("A", k) for k in range(26)]
     out += [("P", k) for k in range(0, 118, 8)]
     out += [("G",), ("D",), ("N",), ("HH", 0), ("HH", 1), ("HH", 2), ("HH", 3)]
+    out += [("SP", b["NC"], a, 0, 1) for a in range(1, b["NC"] + 1)]
     N = b["N"]
     for a in range(1, N + 1):
         J = _J(a)
@@ -229,6 +239,42 @@ def run_chunk(chunk, tier):
             res.nontrivial += 1
             _check_accept(res, s, ref, dict(layer="N", s=s, ref={str(k): v for k, v in ref.items()}))
         res.sample(dict(layer="N", example="(HO2)0.125"))
+    elif kind == "SP":
+        # caller-declared phase suffixes (the `suffixes=` / `phases=` arguments): a declared suffix is a phase marker,
+        # never part of the composition — with the phase index derived from it or given explicitly (`phase_idx=`)
+        from chempy import Species
+        from chempy.util.parsing import formula_to_composition
+
+        _, NC, a, j, J = chunk
+        seen = set()
+        for st in F.states(NC, a, j, J):
+            if st[4] is not None:
+                continue
+            s0 = F.string_of(st)
+            if s0 in seen:
+                continue
+            seen.add(s0)
+            ref = F.composition_of(st)
+            for tok, tname, table in SP_TABLES:
+                s = s0 + tok
+                res.states += 1
+                res.transitions += 1
+                res.nontrivial += 1
+                obs = []
+                for api, f in (("formula_to_composition(suffixes=%s)" % tname, lambda: formula_to_composition(s, suffixes=tuple(table))),
+                               ("Species.from_formula(phases=%s)" % tname, lambda: Species.from_formula(s, phases=table).composition),
+                               ("Species.from_formula(phases=%s,phase_idx=1)" % tname, lambda: Species.from_formula(s, phases=table, phase_idx=1).composition)):
+                    res.evaluations += 1
+                    try:
+                        got = _take(f())
+                    except Exception as e:
+                        got = "EXC %s" % type(e).__name__
+                    if not _same(got, ref):
+                        res.violation("C01|SP|%s|%s" % (api.split("(")[0], "rejected" if isinstance(got, str) else "misread"), "%s on %r = %r, written composition is %r (the declared suffix %r is a phase marker)" % (api, s, got, ref, tok),
+                                      dict(layer="SP", s=s, s0=s0, tok=tok, tname=tname, ref={str(k): v for k, v in ref.items()}), got, ref)
+                        obs.append(api)
+                res.outcomes["declared-suffix-correct" if not obs else "declared-suffix-WRONG"] += 1
+        res.sample(dict(layer="SP", example="UO2+2(ads)", tables=[t[1] for t in SP_TABLES]))
     elif kind == "B":
         _, N, a, j, J = chunk
         seen = set()
@@ -312,6 +358,8 @@ def _count_symbols(res, st):
 def replay(case):
     res = Result()
     s = case["s"]
+    if case["layer"] == "SP":
+        return _replay_sp(case)
     if case["layer"] in ("C",) or case.get("why"):
         _check_reject(res, s, case)
     else:
@@ -320,4 +368,23 @@ def replay(case):
     if res.violations:
         v = res.violations[0]
         return dict(key=v["key"], what=v["what"], observed=v["observed"], expected=v["expected"])
+    return None
+
+
+def _replay_sp(case):
+    from chempy import Species
+    from chempy.util.parsing import formula_to_composition
+
+    table = [t for t in SP_TABLES if t[0] == case["tok"] and t[1] == case["tname"]][0][2]
+    ref = {int(k): v for k, v in case["ref"].items()}
+    s = case["s"]
+    for api, f in (("formula_to_composition", lambda: formula_to_composition(s, suffixes=tuple(table))),
+                   ("Species.from_formula", lambda: Species.from_formula(s, phases=table).composition),
+                   ("Species.from_formula", lambda: Species.from_formula(s, phases=table, phase_idx=1).composition)):
+        try:
+            got = _take(f())
+        except Exception as e:
+            got = "EXC %s" % type(e).__name__
+        if not _same(got, ref):
+            return dict(key="C01|SP|%s|%s" % (api, "rejected" if isinstance(got, str) else "misread"), what="%s on %r = %r, written composition is %r" % (api, s, got, ref), observed=got, expected=ref)
     return None
